@@ -109,20 +109,24 @@ def discharge_units(results, z3_timeout=20, cvc5_timeout=20, recheck=False, seed
 
 
 def check_covers(results, timeout=5):
-    """Reachability: each cover is a list of hypothesis sets, at least one must be satisfiable (not unsat)."""
+    """Reachability: for each cover name (a loop body, a precondition), at least one of the hypothesis sets collected
+    over all paths must be satisfiable (not shown unsat)."""
     items = []
-    names = []
+    groups = {}
+    order = []
     for ur in results:
         for name, hypsets in ur.covers:
-            names.append((ur, name, len(hypsets)))
+            if name not in groups:
+                groups[name] = (ur, [])
+                order.append(name)
             for h in hypsets:
+                groups[name][1].append(len(items))
                 items.append((h, z3.BoolVal(False), False, {}))
     res = solve.discharge(items, z3_timeout=timeout, cvc5=False)
     out = []
-    k = 0
-    for ur, name, n in names:
-        verdicts = [res[k + i]["z3"] for i in range(n)]
-        k += n
+    for name in order:
+        ur, idxs = groups[name]
+        verdicts = [res[i]["z3"] for i in idxs]
         ok = any(v != "unsat" for v in verdicts)     # sat or unknown: not shown contradictory
         out.append((ur, name, ok, verdicts))
     return out
